@@ -100,7 +100,7 @@ def run_case(case, R):
     elif "dense" in case:
         items = [(tuple(sp["n"]), tuple(sp["s"]), lab_, sp["d"], sp) for lab_, sp in space.dense_specs()[case["dense"]:case["dense"] + 1]]
     elif case.get("magnitudes"):
-        items = [(tuple(sp["n"]), tuple(sp["s"]), i, sp["d"], sp) for i, sp in enumerate(space.magnitude_specs())]
+        items = [(tuple(sp["n"]), tuple(sp["s"]), i, sp["d"], sp) for i, sp in enumerate(space.magnitude_specs() + space.nonfinite_specs())]
     elif case.get("twins"):
         items = [(tuple(sp["n"]), tuple(sp["s"]), i, sp["d"], sp) for i, sp in enumerate(space.twin_sequence())]
     else:
